@@ -63,7 +63,7 @@ class GenModel(nn.Module):
         return outs[0] if len(outs) == 1 else tuple(outs)
 
 
-N_DATA = {"loginv": 1, "grouplog": 1, "act": 2, "poly": 3, "mixed": 2, "between": 1, "scalar": 0}
+N_DATA = {"loginv": 1, "grouplog": 1, "act": 2, "poly": 3, "mixed": 2, "between": 1, "scalar": 0, "prior": 0}
 
 
 def _as_group(p, ps):
@@ -103,6 +103,12 @@ def _resid(rs, P, kinds, data):
         out = (G[:-1].Inv() @ G[1:] @ data[0]).Log().tensor()
     elif t == "scalar":
         out = P[rs["p"]].reshape(1)
+    elif t == "prior":
+        # a zero-mean prior on a Euclidean / algebra parameter: the model returns the parameter itself (a view of its
+        # storage, no fresh tensor), as in `return err, self.t`
+        q_ = P[rs["p"]]
+        out = (q_.tensor() if hasattr(q_, "ltype") else q_)
+        out = out.reshape(-1, out.shape[-1]) if out.ndim > 1 else out.view(-1)
     else:
         raise ValueError(t)
     if rs.get("cubic"):
@@ -203,6 +209,10 @@ def gen_spec(r, prop, allow_frozen=True):
             one(b)
     else:
         one(arch)
+    if arch != "scalar" and len(residuals) == 1 and r.random() < 0.25:
+        cand = [k for k, ps in enumerate(params) if ps["kind"] in ("euclid", "alg")]
+        if cand:
+            residuals.append({"tpl": "prior", "p": r.choice(cand)})
     if allow_frozen and len(params) >= 2 and r.random() < 0.3:
         params[r.randrange(len(params))]["frozen"] = True
     return {"params": params, "residuals": residuals}
